@@ -7,7 +7,6 @@ use syn::spanned::Spanned;
 
 pub struct SignatureConverter<'a> {
     pub crate_idents: &'a CrateIdents,
-    #[expect(unused)]
     pub trait_span: Span,
     #[expect(unused)]
     pub opts: &'a Opts,
@@ -137,11 +136,16 @@ impl SignatureConverter<'_> {
             None => syn::parse_quote!(Self),
         };
 
+        // The delegating body refers to `self` with the span of the trait identifier. `self` is hygienic,
+        // so the receiver has to be declared in that same context (it matters when the invocation is
+        // stamped out by `macro_rules!` and the trait name is a macro argument).
+        let _ = span;
+
         syn::FnArg::Receiver(syn::Receiver {
             attrs: vec![],
             reference,
             mutability: None,
-            self_token: syn::token::SelfValue(span),
+            self_token: syn::token::SelfValue(self.trait_span),
             colon_token: None,
             ty,
         })
@@ -149,8 +153,10 @@ impl SignatureConverter<'_> {
 
     fn gen_impl_receiver(&self, _: Span, lifetime: Option<&syn::Lifetime>) -> syn::FnArg {
         let entrait = &self.crate_idents.entrait;
+        // (same span as the `__impl` in the delegating body, see `gen_self_receiver`)
+        let impl_ident = syn::Ident::new("__impl", self.trait_span);
         syn::parse_quote! {
-            __impl: & #lifetime ::#entrait::Impl<EntraitT>
+            #impl_ident: & #lifetime ::#entrait::Impl<EntraitT>
         }
     }
 
